@@ -55,6 +55,27 @@ pub struct Case {
     pub exact: bool,
     #[serde(default)]
     pub loop_dispatches: Option<u8>,
+    /// every sender an actor drops is dropped while the actor's thread unwinds from a panic (a worker that owns the
+    /// sender dies): "after every sender is gone" does not depend on how it went
+    #[serde(default)]
+    pub unwinding: bool,
+}
+
+/// Drop `t` while this thread is unwinding (std::thread::panicking() is true in its destructor); no panic message
+/// (resume_unwind bypasses the hook), the unwind ends here.
+fn drop_unwinding<T>(t: T) {
+    let _ = std::panic::catch_unwind(std::panic::AssertUnwindSafe(move || {
+        let _t = t;
+        std::panic::resume_unwind(Box::new(()));
+    }));
+}
+
+fn drop_tx(t: Tx, unwinding: bool) {
+    if unwinding {
+        drop_unwinding(t);
+    } else {
+        drop(t);
+    }
 }
 
 fn sop() -> impl Strategy<Value = SOp> {
@@ -67,8 +88,9 @@ fn case_strategy() -> impl Strategy<Value = Case> {
         proptest::collection::vec(proptest::collection::vec(sop(), 1..=6), 1..=3),
         schedule_strategy(200),
         prop::bool::weighted(0.2),
+        prop::bool::weighted(0.2),
     )
-        .prop_map(|(bound, actors, schedule, keep_one)| Case { bound, actors, schedule, keep_one, exact: false, loop_dispatches: None })
+        .prop_map(|(bound, actors, schedule, keep_one, unwinding)| Case { bound, actors, schedule, keep_one, exact: false, loop_dispatches: None, unwinding })
 }
 
 enum Tx {
@@ -235,6 +257,7 @@ pub fn run_sched(case: &Case) -> SchedOut {
             let prog = prog.clone();
             let disp_count = disp_count.clone();
             let loop_left = loop_left.clone();
+            let unwinding = case.unwinding;
             joins.push(sc.spawn(move || {
                 ctl.enrolled(ai, || {
                     let mut hs: Vec<Tx> = vec![h];
@@ -298,7 +321,7 @@ pub fn run_sched(case: &Case) -> SchedOut {
                             SOp::Drop => {
                                 if let Some(t) = hs.pop() {
                                     let b = sched::tick();
-                                    drop(t);
+                                    drop_tx(t, unwinding);
                                     let e = sched::tick();
                                     rec.lock().unwrap().push(Rec::Drop { b, e });
                                 }
@@ -308,7 +331,7 @@ pub fn run_sched(case: &Case) -> SchedOut {
                     while let Some(t) = hs.pop() {
                         sched::harness_yield();
                         let b = sched::tick();
-                        drop(t);
+                        drop_tx(t, unwinding);
                         let e = sched::tick();
                         rec.lock().unwrap().push(Rec::Drop { b, e });
                     }
@@ -476,6 +499,9 @@ pub fn run_sched(case: &Case) -> SchedOut {
     }
     if keep_one {
         out.classes.push("sender_kept_alive");
+    }
+    if case.unwinding {
+        out.classes.push("senders_dropped_while_unwinding");
     }
     out.classes.push(match bound {
         None => "unbounded",
@@ -670,6 +696,9 @@ pub struct FreeCase {
     pub bound: Option<u8>,
     pub actors: Vec<Vec<SOp>>,
     pub keep_one: bool,
+    /// see `Case::unwinding`
+    #[serde(default)]
+    pub unwinding: bool,
 }
 
 fn free_strategy() -> impl Strategy<Value = FreeCase> {
@@ -677,8 +706,9 @@ fn free_strategy() -> impl Strategy<Value = FreeCase> {
         prop_oneof![3 => Just(None), 4 => proptest::sample::select(vec![Some(1u8), Some(2), Some(8)])],
         proptest::collection::vec(proptest::collection::vec(prop_oneof![5 => Just(SOp::Send), 3 => Just(SOp::TrySend), 1 => Just(SOp::Clone), 3 => Just(SOp::Drop)], 0..=5), 2..=3),
         prop::bool::weighted(0.2),
+        prop::bool::weighted(0.2),
     )
-        .prop_map(|(bound, actors, keep_one)| FreeCase { bound, actors, keep_one })
+        .prop_map(|(bound, actors, keep_one, unwinding)| FreeCase { bound, actors, keep_one, unwinding })
 }
 
 pub fn run_free(case: &FreeCase) -> CaseOutcome {
@@ -741,6 +771,7 @@ fn run_free_once(case: &FreeCase) -> CaseOutcome {
             let sent = sent.clone();
             let prog = prog.clone();
             let handback_wrong = handback_wrong.clone();
+            let unwinding = case.unwinding;
             sc.spawn(move || {
                 go.fetch_add(1, Ordering::SeqCst);
                 while go.load(Ordering::SeqCst) < n + 1 {
@@ -785,12 +816,16 @@ fn run_free_once(case: &FreeCase) -> CaseOutcome {
                             }
                         }
                         SOp::Drop => {
-                            hs.pop();
+                            if let Some(t) = hs.pop() {
+                                drop_tx(t, unwinding);
+                            }
                         }
                         SOp::Settle => {}
                     }
                 }
-                drop(hs);
+                while let Some(t) = hs.pop() {
+                    drop_tx(t, unwinding);
+                }
                 sent.lock().unwrap()[ai] = mine;
                 done.fetch_add(1, Ordering::SeqCst);
             });
@@ -825,6 +860,9 @@ fn run_free_once(case: &FreeCase) -> CaseOutcome {
     let total: usize = sent.iter().map(|v| v.len()).sum();
     info.nontrivial = case.actors.iter().take(n).filter(|p| !p.is_empty()).count() >= 2;
     info.classes.push("free_running");
+    if case.unwinding {
+        info.classes.push("senders_dropped_while_unwinding");
+    }
     info.counters.push(("free_sent_ok", total as u64));
     let mut viol = None;
     if timed_out {
